@@ -34,13 +34,25 @@ def K(v, kind):
             "jax0d": lambda: jnp.asarray(float(v)), "jaxf32": lambda: jnp.asarray(v, dtype=jnp.float32)}[kind]()
 
 
+_USED = {}  # kind -> how often drawn in this run: the least used admissible kind is drawn next, so every run goes through all of them
+
+
+def _pick(rng, kinds):
+    m = min(_USED.get(k, 0) for k in kinds)
+    ks = [k for k in kinds if _USED.get(k, 0) == m]
+    k = ks[int(rng.integers(0, len(ks)))]
+    _USED[k] = m + 1
+    return k
+
+
 def kind_of(rng, v, allowed=None):
-    """A random type variant compatible with the value (integer kinds only for integral values)."""
-    ks = [k for k in (INT_KINDS if float(v) == int(v) else ()) + FLT_KINDS if allowed is None or k in allowed]
-    return ks[int(rng.integers(0, len(ks)))]
+    """A type variant compatible with the value (integer kinds only for integral values)."""
+    return _pick(rng, [k for k in (INT_KINDS if float(v) == int(v) else ()) + FLT_KINDS if allowed is None or k in allowed])
 
 
 def ktol(*kinds):
+    """Tolerance where the library computes WITH the argument in its own precision (LeakyTanh slope, spline interval, 1/rate, cholesky, log weights); arguments that are only
+    converted (all values used here are multiples of 1/8, exact in float32) must reproduce the python-float object to rounding: 1e-11."""
     return 2e-6 if any("32" in k for k in kinds) else 1e-11
 
 
@@ -59,8 +71,7 @@ def _call(f, x, c):
 # ------------------------------------------------------------------ catalogue: bijections built with non-default arguments / type variants
 def _num(rng, lo, hi, ints=True, allowed=None):
     """(value, kind): a multiple of 1/8 in [lo, hi] (exact in float32), an integer if an integer kind is drawn."""
-    kinds = [k for k in ((INT_KINDS if ints else ()) + FLT_KINDS) if allowed is None or k in allowed]
-    kind = kinds[int(rng.integers(0, len(kinds)))]
+    kind = _pick(rng, [k for k in ((INT_KINDS if ints else ()) + FLT_KINDS) if allowed is None or k in allowed])
     if kind in INT_KINDS:
         return float(rng.integers(int(np.ceil(lo)), int(np.floor(hi)) + 1)), kind
     return float(rng.integers(int(np.ceil(lo * 8)), int(np.floor(hi * 8)) + 1)) / 8.0, kind
@@ -83,37 +94,59 @@ def _set_rqs(b, rng, knots):
     return lambda o: eqx.tree_at(lambda s: (s.x_pos.args[0], s.y_pos.args[0], s.derivatives.args[0]), o, raw)
 
 
-def leaf_entries(ctx):
-    """name, bij (built with type variants), ref (same numbers as python floats / float64 jax arrays, or None), den(x) -> y or None, case."""
+def _adder(out, grp, **defaults):
+    """add(name, mk, case, **fields): mk() builds the object(s) from the documented arguments (a bijection, or a dict of entry fields);
+    a constructor that raises becomes an entry with `error`, reported by `_live` as a violation of the unit that wanted the object."""
+    def add(name, mk, case, **fields):
+        e = dict(dict(name=name, case=case, grp=grp, ref=None, den=None, tol=1e-11, jit=True, dist=None), **defaults)
+        e.update(fields)
+        try:
+            r = mk()
+            e.update(r if isinstance(r, dict) else {"bij": r})
+        except Exception as ex:  # noqa: BLE001
+            e["error"] = f"{type(ex).__name__}: {str(ex)[:160]}"
+        out.append(e)
+    return add
+
+
+def _live(ctx, u, prop, entries):
+    for e in entries:
+        if "error" in e:
+            u.count((e["name"], e["case"], "constructor"), tag="constructor")
+            _viol(ctx, u, prop, f"{prop}:{e['name'].split('(')[0].split('[')[0]}:constructor", f"{e['name']} cannot be built from the documented arguments {e['case']}: {e['error']}", dict(entry=e["name"], args=e["case"]))
+        else:
+            yield e
+
+
+def leaf_entries(ctx, reps=2):
+    """name, bij (built with type variants), ref (same numbers as python floats / float64 jax arrays, or None), den(x) -> y or None, case.
+    reps: passes through the leaf classes (the kinds are dealt evenly: 5 passes show a parameter half of its ten type variants)."""
     from harness import c07
 
     L = _L()
     B, jnp, jr, eqx = L["B"], L["jnp"], L["jr"], L["eqx"]
     rng, out = ctx.rng, []
-
-    def add(name, bij, ref=None, den=None, tol=1e-11, jit=True, **case):
-        out.append(dict(name=name, bij=bij, ref=ref, den=den, tol=tol, case=case, grp="leaf", jit=jit))
-
-    for _ in range(2):
+    add = _adder(out, "leaf")
+    for _ in range(reps):
         (l, lk), (s, sk) = _num(rng, -3, 3), _num(rng, 0.25, 4)
-        add("Affine(scalar loc, scalar scale)", B.Affine(K(l, lk), K(s, sk)), B.Affine(l, s), lambda x, l=l, s=s: s * x + l, ktol(lk, sk), loc=l, scale=s, kinds=[lk, sk])
-        add("Loc(scalar)", B.Loc(K(l, lk)), B.Loc(l), lambda x, l=l: x + l, ktol(lk), loc=l, kinds=[lk])
-        add("Scale(scalar)", B.Scale(K(s, sk)), B.Scale(s), lambda x, s=s: s * x, ktol(sk), scale=s, kinds=[sk])
-        hl, hs = ARR_HOW[int(rng.integers(0, 6))], ARR_HOW[int(rng.integers(0, 6))]
+        add("Affine(scalar loc, scalar scale)", lambda: dict(bij=B.Affine(K(l, lk), K(s, sk)), ref=B.Affine(l, s)), dict(loc=l, scale=s, kinds=[lk, sk]), den=lambda x, l=l, s=s: s * x + l)
+        add("Loc(scalar)", lambda: dict(bij=B.Loc(K(l, lk)), ref=B.Loc(l)), dict(loc=l, kinds=[lk]), den=lambda x, l=l: x + l)
+        add("Scale(scalar)", lambda: dict(bij=B.Scale(K(s, sk)), ref=B.Scale(s)), dict(scale=s, kinds=[sk]), den=lambda x, s=s: s * x)
+        hl, hs = _pick(rng, ARR_HOW), _pick(rng, ARR_HOW)
         la, sa = _arr(rng, rng.normal(0, 2, (3,)), hl), _arr(rng, rng.uniform(1, 4, (2, 1)), hs)
-        add("Affine(array loc, array scale)", B.Affine(la, sa), B.Affine(jnp.asarray(_np(la)), jnp.asarray(_np(sa))), lambda x, la=_np(la), sa=_np(sa): sa * x + la,
-            loc=_np(la).tolist(), scale=_np(sa).tolist(), kinds=[hl, hs])
-        add("Scale(array)", B.Scale(sa), B.Scale(jnp.asarray(_np(sa))), lambda x, sa=_np(sa): sa * x, scale=_np(sa).tolist(), kinds=[hs])
-        d, lower, ha = int(rng.integers(2, 5)), bool(rng.integers(0, 2)), ARR_HOW[int(rng.integers(0, 6))]
+        add("Affine(array loc, array scale)", lambda: dict(bij=B.Affine(la, sa), ref=B.Affine(jnp.asarray(_np(la)), jnp.asarray(_np(sa)))), dict(loc=_np(la).tolist(), scale=_np(sa).tolist(), kinds=[hl, hs]),
+            den=lambda x, la=_np(la), sa=_np(sa): sa * x + la)
+        add("Scale(array)", lambda: dict(bij=B.Scale(sa), ref=B.Scale(jnp.asarray(_np(sa)))), dict(scale=_np(sa).tolist(), kinds=[hs]), den=lambda x, sa=_np(sa): sa * x)
+        d, lower, ha = int(rng.integers(2, 5)), bool(rng.integers(0, 2)), _pick(rng, ARR_HOW)
         a = rng.normal(0, 1.5, (d, d))
         a[np.diag_indices(d)] = rng.uniform(1, 4, d)
         a = _arr(rng, a, ha)
         A = np.tril(_np(a)) if lower else np.triu(_np(a))
-        add(f"TriangularAffine(scalar loc, arr, lower={lower})", B.TriangularAffine(K(l, lk), a, lower=lower), B.TriangularAffine(l, jnp.asarray(_np(a)), lower=lower),
-            lambda x, A=A, l=l: A @ x + l, ktol(lk), loc=l, arr=_np(a).tolist(), lower=lower, kinds=[lk, ha])
+        add(f"TriangularAffine(scalar loc, arr, lower={lower})", lambda: dict(bij=B.TriangularAffine(K(l, lk), a, lower=lower), ref=B.TriangularAffine(l, jnp.asarray(_np(a)), lower=lower)),
+            dict(loc=l, arr=_np(a).tolist(), lower=lower, kinds=[lk, ha]), den=lambda x, A=A, l=l: A @ x + l)
         m, mk = _num(rng, 1, 4)
         shape = [(), (3,), (2, 2)][int(rng.integers(0, 3))]
-        add("LeakyTanh(max_val, shape)", B.LeakyTanh(K(m, mk), shape), B.LeakyTanh(m, shape), lambda x, m=m: c07.ref_leaky_tanh(m, x), ktol(mk), max_val=m, shape=list(shape), kinds=[mk])
+        add("LeakyTanh(max_val, shape)", lambda: dict(bij=B.LeakyTanh(K(m, mk), shape), ref=B.LeakyTanh(m, shape)), dict(max_val=m, shape=list(shape), kinds=[mk]), den=lambda x, m=m: c07.ref_leaky_tanh(m, x), tol=ktol(mk))
         # spline: knots / interval / min_derivative / softmax_adjust in every type variant, scalar and tuple interval, integer interval ends
         kn, knk = _num(rng, 2, 9, allowed=INT_KINDS)
         (md, mdk), (sadj, sak) = _num(rng, 0.125, 0.75, ints=False), _num(rng, 0, 2, allowed=NOJAX)  # a jax-array softmax_adjust is compared with 0 in python: no jit
@@ -126,29 +159,30 @@ def leaf_entries(ctx):
             iarg, iref, ivks = (K(lo, lok), K(lo + w, hik)), (lo, lo + w), [lok, hik]
         setp = _set_rqs(None, rng, int(kn))
         add("RationalQuadraticSpline(knots, interval, min_derivative, softmax_adjust)",
-            setp(B.RationalQuadraticSpline(knots=K(kn, knk), interval=iarg, min_derivative=K(md, mdk), softmax_adjust=K(sadj, sak))),
-            setp(B.RationalQuadraticSpline(knots=int(kn), interval=iref, min_derivative=md, softmax_adjust=sadj)), None, ktol(mdk, sak, *ivks),
-            knots=int(kn), interval=iref, min_derivative=md, softmax_adjust=sadj, kinds=[knk, *ivks, mdk, sak])
-        ns, nsk = _num(rng, 0.25, 3, allowed=NOJAX)
+            lambda: dict(bij=setp(B.RationalQuadraticSpline(knots=K(kn, knk), interval=iarg, min_derivative=K(md, mdk), softmax_adjust=K(sadj, sak))),
+                         ref=setp(B.RationalQuadraticSpline(knots=int(kn), interval=iref, min_derivative=md, softmax_adjust=sadj))),
+            dict(knots=int(kn), interval=iref, min_derivative=md, softmax_adjust=sadj, kinds=[knk, *ivks, mdk, sak]), tol=ktol(mdk, sak, *ivks))
+        ns, nsk = _num(rng, 0.25, 3, allowed=NOJAX)  # a jax-array slope fails under every jit (python max / if on it): outside the documented float
         d = int(rng.integers(1, 4))
         p = rng.normal(0, 1.0, 2 * d + 1)
         setq = lambda o, p=p: eqx.tree_at(lambda q: q.params, o, jnp.asarray(p))
-        add("Planar(negative_slope)", setq(B.Planar(jr.PRNGKey(0), dim=d, negative_slope=K(ns, nsk))), setq(B.Planar(jr.PRNGKey(0), dim=d, negative_slope=ns)),
-            lambda x, d=d, ns=ns, p=p: c07.ref_planar(p[:d], p[d:2 * d], p[-1], ns, x), ktol(nsk), jit=nsk.startswith("py"), dim=d, negative_slope=ns, params=p.tolist(), kinds=[nsk])
+        add("Planar(negative_slope)", lambda: dict(bij=setq(B.Planar(jr.PRNGKey(0), dim=d, negative_slope=K(ns, nsk))), ref=setq(B.Planar(jr.PRNGKey(0), dim=d, negative_slope=ns))),
+            dict(dim=d, negative_slope=ns, params=p.tolist(), kinds=[nsk]), den=lambda x, d=d, ns=ns, p=p: c07.ref_planar(p[:d], p[d:2 * d], p[-1], ns, x), tol=ktol(nsk), jit=nsk.startswith("py"))
         shape = [(5,), (2, 3), (2, 2, 2)][int(rng.integers(0, 3))]
         perm = rng.permutation(int(np.prod(shape))).reshape(shape)
         how = ["np.int64", "np.int32", "jax.int32"][int(rng.integers(0, 3))]
         parg = perm.astype(np.int64) if how == "np.int64" else perm.astype(np.int32) if how == "np.int32" else jnp.asarray(perm, dtype=jnp.int32)
-        add("Permute(permutation)", B.Permute(parg), None, lambda x, perm=perm: x.ravel()[perm.ravel()].reshape(perm.shape), permutation=perm.tolist(), kinds=[how])
+        add("Permute(permutation)", lambda: B.Permute(parg), dict(permutation=perm.tolist(), kinds=[how]), den=lambda x, perm=perm: x.ravel()[perm.ravel()].reshape(perm.shape))
     return out
 
 
 def comb_entries(ctx):
-    """Combinators built with tuples, negative / NumPy-typed axes and indices, every documented `idxs` / `in_axes` form, wrapped children,
-    reshaped conditions.  den(x, c) -> (y, log_det) is the DEFINITION evaluated with NumPy through the children's own methods."""
+    """Combinators built with tuples, negative axes and indices, every documented `idxs` / `in_axes` form, wrapped children, reshaped
+    conditions.  den(x, c) -> (y, log_det) is the DEFINITION evaluated with NumPy through the children's own methods."""
     L = _L()
     B, jnp, jr, eqx, W = L["B"], L["jnp"], L["jr"], L["eqx"], L["W"]
     rng, out = ctx.rng, []
+    add = _adder(out, "comb", cond=None)
     tld = lambda b, x, c=None: tuple(np.asarray(v, dtype=float) for v in b.transform_and_log_det(jnp.asarray(x), None if (c is None or b.cond_shape is None) else jnp.asarray(c)))
 
     def aff(shape):
@@ -159,62 +193,57 @@ def comb_entries(ctx):
         Wm = jnp.asarray(rng.normal(0, 1, (int(np.prod(shape)), int(np.prod(cshape)))))
         return B.AdditiveCondition(lambda c: (Wm @ c.ravel()).reshape(shape), shape, cshape)
 
-    def add(name, bij, den, shape, cond=None, jit=True, **case):
-        out.append(dict(name=name, bij=bij, ref=None, den=den, shape=tuple(shape), cond=cond, tol=1e-11, case=case, grp="comb", jit=jit))
-
     def parts(kids, x, c, axis, stack):
         xs = np.split(x, len(kids), axis) if stack else np.split(x, np.cumsum([k.shape[axis] for k in kids])[:-1], axis)
         r = [tld(k, np.squeeze(p, axis) if stack else p, c) for k, p in zip(kids, xs)]
         return (np.stack if stack else np.concatenate)([y for y, _ in r], axis), sum(ld for _, ld in r)
 
+    def seq(layers):
+        def f(x, c):
+            ld = 0.0
+            for b in layers:
+                x, l1 = tld(W.unwrap(b), x, c)
+                ld = ld + l1
+            return x, ld
+        return f
+
     for _ in range(2):
         # Concatenate / Stack: children as a TUPLE, negative axis, one conditional child
         ax = int(rng.integers(-2, 0))
         sizes = [int(v) for v in rng.integers(1, 4, 3)]
-        sh = lambda k: (2, k) if ax == -1 else (k, 2)
+        sh = lambda k, ax=ax: (2, k) if ax == -1 else (k, 2)
         kids = (aff(sh(sizes[0])), addc(sh(sizes[1]), (2,)), B.Chain((aff(sh(sizes[2])), B.Tanh(sh(sizes[2])))))
-        add(f"Concatenate(tuple, axis={ax})", B.Concatenate(kids, axis=ax), lambda x, c, kids=kids, ax=ax: parts(kids, x, c, ax, False),
-            np.concatenate([np.zeros(k.shape) for k in kids], ax).shape, (2,), axis=ax, child_shapes=[list(k.shape) for k in kids])
+        add(f"Concatenate(tuple, axis={ax})", lambda: B.Concatenate(kids, axis=ax), dict(axis=ax, child_shapes=[list(k.shape) for k in kids]), den=lambda x, c, kids=kids, ax=ax: parts(kids, x, c, ax, False),
+            shape=np.concatenate([np.zeros(k.shape) for k in kids], ax).shape, cond=(2,))
         ax = int(rng.integers(-3, 0))
         kids = (aff((2, 3)), addc((2, 3), (2,)), B.Invert(aff((2, 3))))
-        add(f"Stack(tuple, axis={ax})", B.Stack(kids, axis=ax), lambda x, c, kids=kids, ax=ax: parts(kids, x, c, ax, True),
-            np.stack([np.zeros(k.shape) for k in kids], ax).shape, (2,), axis=ax)
+        add(f"Stack(tuple, axis={ax})", lambda: B.Stack(kids, axis=ax), dict(axis=ax), den=lambda x, c, kids=kids, ax=ax: parts(kids, x, c, ax, True), shape=np.stack([np.zeros(k.shape) for k in kids], ax).shape, cond=(2,))
         # Chain: a tuple with wrapped (NonTrainable) members; __getitem__ with negative ints and stepped / reversed slices
         lay = (aff((3,)), W.NonTrainable(aff((3,))), W.non_trainable(B.LeakyTanh(2, (3,))), addc((3,), (2, 2)), B.Invert(B.LeakyTanh(1.5, (3,))), B.Flip((3,)))
-        ch = B.Chain(lay)
-
-        def seq(layers):
-            def f(x, c):
-                ld = 0.0
-                for b in layers:
-                    x, l1 = tld(W.unwrap(b), x, c)
-                    ld = ld + l1
-                return x, ld
-            return f
-        add("Chain(tuple with wrapped members)", ch, seq(lay), (3,), (2, 2))
+        add("Chain(tuple with wrapped members)", lambda: B.Chain(lay), {}, den=seq(lay), shape=(3,), cond=(2, 2))
         sl = [slice(-3, None), slice(None, None, 2), slice(1, 5, 3), slice(None, None, -1), slice(-1, 1, -2), slice(3, 4)][int(rng.integers(0, 6))]
-        sub = ch[sl]
-        add(f"Chain[{sl.start}:{sl.stop}:{sl.step}]", sub, seq(lay[sl]), (3,), W.unwrap(sub).cond_shape, expect_len=len(lay[sl]), got_len=len(sub))
+        add(f"Chain[{sl.start}:{sl.stop}:{sl.step}]", lambda: (lambda sub: dict(bij=sub, got_len=len(sub)))(B.Chain(lay)[sl]), dict(slice=str(sl)), den=seq(lay[sl]), shape=(3,),
+            cond=(2, 2) if lay[3] in lay[sl] else None, expect_len=len(lay[sl]))
         i = int(rng.integers(-6, 0))
-        add(f"Chain[{i}]", W.unwrap(ch[i]), seq((lay[i],)), (3,), W.unwrap(lay[i]).cond_shape)
+        add(f"Chain[{i}]", lambda: W.unwrap(B.Chain(lay)[i]), dict(index=i), den=seq((lay[i],)), shape=(3,), cond=W.unwrap(lay[i]).cond_shape)
         # Vmap: in_axes as int / callable / pytree (doc example: shared scale, per-element loc); in_axes_condition of both signs
         n = int(rng.integers(2, 5))
         locs, scs = rng.normal(0, 1, n), np.exp(rng.normal(0, 0.5, n))
         kid = eqx.filter_vmap(lambda l, s: B.Affine(l, s))(jnp.asarray(locs), jnp.asarray(scs))
         den = lambda x, c, locs=locs, scs=scs: (scs * x + locs, np.sum(np.log(scs)))
-        add("Vmap(in_axes=0)", B.Vmap(kid, in_axes=0), den, (n,))
-        add("Vmap(in_axes=callable)", B.Vmap(kid, in_axes=lambda leaf: 0 if eqx.is_array(leaf) else None), den, (n,))
+        add("Vmap(in_axes=0)", lambda: B.Vmap(kid, in_axes=0), dict(n=n), den=den, shape=(n,))
+        add("Vmap(in_axes=callable)", lambda: B.Vmap(kid, in_axes=lambda leaf: 0 if eqx.is_array(leaf) else None), dict(n=n), den=den, shape=(n,))
         one = eqx.tree_at(lambda a: a.loc, B.Affine(0.0, float(scs[0])), jnp.asarray(locs))
         ia = eqx.tree_at(lambda a: a.loc, L["jax"].tree_util.tree_map(lambda _: None, W.unwrap(one)), 0, is_leaf=lambda v: v is None)
-        add("Vmap(in_axes=pytree)", B.Vmap(one, in_axes=ia), lambda x, c, locs=locs, s0=float(scs[0]), n=n: (s0 * x + locs, n * np.log(s0)), (n,))
+        add("Vmap(in_axes=pytree)", lambda: B.Vmap(one, in_axes=ia), dict(n=n), den=lambda x, c, locs=locs, s0=float(scs[0]), n=n: (s0 * x + locs, n * np.log(s0)), shape=(n,))
         cax = int(rng.integers(-3, 3))
-        kidc = addc((2,), (3, 2))
-        pos = range(3)[cax]
+        kidc, pos = addc((2,), (3, 2)), range(3)[cax]
 
         def vden(x, c, kidc=kidc, pos=pos, n=n):
             r = [tld(kidc, x[i], np.take(c, i, axis=pos)) for i in range(n)]
             return np.stack([y for y, _ in r]), sum(ld for _, ld in r)
-        add(f"Vmap(axis_size, in_axes_condition={cax})", B.Vmap(kidc, axis_size=n, in_axes_condition=cax), vden, (n, 2), tuple(np.insert(np.zeros(()) + [3, 2], pos, n).astype(int)), in_axes_condition=cax)
+        add(f"Vmap(axis_size, in_axes_condition={cax})", lambda: B.Vmap(kidc, axis_size=n, in_axes_condition=cax), dict(in_axes_condition=cax, axis_size=n), den=vden, shape=(n, 2),
+            cond=tuple(int(v) for v in np.insert([3, 2], pos, n)))
         # Partial: every documented idxs form
         forms = [("int", 1, (4, 2)), ("negative int", -1, (4, 2)), ("np.int64", np.int64(2), (4, 2)), ("0-d jax int", jnp.asarray(1), (4, 2)), ("stepped slice", slice(0, 4, 2), (4,)),
                  ("negative-step slice", slice(None, None, -2), (5,)), ("NumPy int array", np.array([3, 0]), (4,)), ("jax int array (negative)", jnp.asarray([-1, 1]), (4, 2)),
@@ -222,28 +251,27 @@ def comb_entries(ctx):
                  ("NumPy bool mask", np.array([True, False, True, True]), (4,)), ("jax bool mask", jnp.asarray([False, True, True, False, False]), (5,))]
         for j in rng.choice(len(forms), 5, replace=False):
             fn, idx, shp = forms[int(j)]
-            kid = aff(np.zeros(shp)[np.asarray(idx) if hasattr(idx, "dtype") else idx].shape)
             nidx = np.asarray(idx) if hasattr(idx, "dtype") else idx
+            kid = aff(np.zeros(shp)[nidx].shape)
 
             def pden(x, c, kid=kid, nidx=nidx):
                 y, ld = tld(kid, x[nidx])
                 out_ = np.array(x, dtype=float)
                 out_[nidx] = y
                 return out_, ld
-            add(f"Partial(idxs: {fn})", B.Partial(kid, idx, shp), pden, shp, None, jit="bool" not in fn, idxs=str(idx))
-        # Reshape (shape and cond_shape), EmbedCondition (raw_cond_shape), Invert of a conditional child
+            add(f"Partial(idxs: {fn})", lambda: B.Partial(kid, idx, shp), dict(idxs=str(idx)), den=pden, shape=shp, jit="bool" not in fn)  # a boolean mask cannot be traced (ARGCOV.md)
+        # Reshape (shape and cond_shape), EmbedCondition (raw_cond_shape), AdditiveCondition with a broadcast module output
         kidc = addc((6,), (4,))
         csh = [(2, 2), (4, 1), None][int(rng.integers(0, 3))]
-        add(f"Reshape(shape=(2,3), cond_shape={csh})", B.Reshape(kidc, (2, 3), csh), lambda x, c, kidc=kidc: (lambda r: (r[0].reshape(2, 3), r[1]))(tld(kidc, x.reshape(6), c.reshape(4))),
-            (2, 3), csh or (4,), cond_shape=csh)
-        add("Reshape(shape=None, cond_shape=(1,4))", B.Reshape(kidc, None, (1, 4)), lambda x, c, kidc=kidc: tld(kidc, x, c.reshape(4)), (6,), (1, 4))
+        add(f"Reshape(shape=(2,3), cond_shape={csh})", lambda: B.Reshape(kidc, (2, 3), csh), dict(cond_shape=csh), den=lambda x, c, kidc=kidc: (lambda r: (r[0].reshape(2, 3), r[1]))(tld(kidc, x.reshape(6), c.reshape(4))),
+            shape=(2, 3), cond=csh or (4,))
+        add("Reshape(shape=None, cond_shape=(1,4))", lambda: B.Reshape(kidc, None, (1, 4)), {}, den=lambda x, c, kidc=kidc: tld(kidc, x, c.reshape(4)), shape=(6,), cond=(1, 4))
         raw = [(5,), (2, 3)][int(rng.integers(0, 2))]
         We = jnp.asarray(rng.normal(0, 1, (4, int(np.prod(raw)))))
         net = lambda c, We=We: jnp.tanh(We @ c.ravel())
-        add(f"EmbedCondition(raw_cond_shape={raw})", B.EmbedCondition(kidc, net, raw), lambda x, c, kidc=kidc, net=net: tld(kidc, x, np.asarray(net(jnp.asarray(c)))), (6,), raw)
-        add("AdditiveCondition(module -> broadcastable shape)", B.AdditiveCondition(lambda c: jnp.sum(c, keepdims=True), (2, 3), (2,)), lambda x, c: (x + np.sum(c), 0.0), (2, 3), (2,))
+        add(f"EmbedCondition(raw_cond_shape={raw})", lambda: B.EmbedCondition(kidc, net, raw), {}, den=lambda x, c, kidc=kidc, net=net: tld(kidc, x, np.asarray(net(jnp.asarray(c)))), shape=(6,), cond=raw)
+        add("AdditiveCondition(module -> broadcastable shape)", lambda: B.AdditiveCondition(lambda c: jnp.sum(c, keepdims=True), (2, 3), (2,)), {}, den=lambda x, c: (x + np.sum(c), 0.0), shape=(2, 3), cond=(2,))
     return out
-
 
 
 def _inverter(rng, case):
@@ -251,89 +279,76 @@ def _inverter(rng, case):
     from flowjax.bisection_search import AutoregressiveBisectionInverter as ABI
 
     (lo, lok), (hi, hik) = _num(rng, -12, -2), _num(rng, 1, 9)
-    tol, mi = [1e-9, 1e-10, 3e-8][int(rng.integers(0, 3))], int(rng.integers(80, 300))
+    tol, mi = [1e-11, 1e-12, 3e-11][int(rng.integers(0, 3))], int(rng.integers(80, 300))
     case.update(inverter=dict(lower=lo, upper=hi, tol=tol, max_iter=mi, kinds=[lok, hik]))
-    return ABI(lower=K(lo, lok), upper=K(hi, hik), tol=tol, max_iter=mi), tol
+    return (lambda: ABI(lower=K(lo, lok), upper=K(hi, hik), tol=tol, max_iter=mi)), tol
 
 
 def net_entries(ctx, flows=True):
-    """Conditioner-network layers and flow factories with non-default keywords: nn_activation, nn_depth 0 / 2, tiny widths, unusual
+    """Conditioner-network layers and flow factories with non-default keywords: nn_activation, nn_depth 0 / 2 / 3, tiny widths, unusual
     untransformed_dim, transformers (spline with integer tuple interval, Affine with a frozen loc, a Chain), BNAF activation as a
-    callable / bijection, depth 0 / 2, custom inverter, invert=False, planar MLP keywords, tanh_max_val variants, custom init."""
+    callable / bijection, depth 0 / 2 / 3, custom inverter, invert=False, planar MLP keywords, tanh_max_val variants, custom init."""
     from harness import flowcases
 
     L = _L()
     B, jnp, jr, eqx, W, D, F, jax = L["B"], L["jnp"], L["jr"], L["eqx"], L["W"], L["D"], L["F"], L["jax"]
     rng, out = ctx.rng, []
+    add = _adder(out, "net", tol=1e-6, search=None)
 
-    def perturb(obj, rng, scale):  # LeakyTanh nodes are kept: a NumPy-typed max_val leaves NumPy floats in its (non-parameter) fields
+    def perturb(obj, scale):  # LeakyTanh nodes are kept: a NumPy-typed max_val leaves NumPy floats in its (non-parameter) fields
         lts = lambda t: [n for n in jax.tree_util.tree_leaves(t, is_leaf=lambda n: isinstance(n, B.LeakyTanh)) if isinstance(n, B.LeakyTanh)]
         new = flowcases.perturb(obj, rng, scale)
         return eqx.tree_at(lts, new, lts(obj)) if lts(obj) else new
+
+    def flow(mk, scale=0.3):
+        fl = perturb(mk(), scale)
+        return dict(bij=fl.bijection, dist=fl)
     key = lambda: jr.PRNGKey(int(rng.integers(0, 2 ** 31)))
     acts = [("tanh", jnp.tanh), ("softplus", jax.nn.softplus), ("elu", jax.nn.elu)]
+    pick = lambda seq_: seq_[int(rng.integers(0, len(seq_)))]
 
     def transformer():
-        j = int(rng.integers(0, 4))
-        if j == 0:
-            lo = int(rng.integers(-3, 0))
-            return f"RQS(knots=3, interval=({lo}, 2))", B.RationalQuadraticSpline(knots=3, interval=(lo, 2))
-        if j == 1:
-            return "Affine with NonTrainable loc", eqx.tree_at(lambda a: a.loc, B.Affine(0.0, 1.5), W.NonTrainable(jnp.asarray(0.25)))
-        if j == 2:
-            return "Chain((Affine, LeakyTanh(2)))", B.Chain((B.Affine(), B.LeakyTanh(2)))
-        return "Scale(2)", B.Scale(2)
-
-    def add(name, obj, tol=1e-6, dist=None, **case):
-        out.append(dict(name=name, bij=obj, ref=None, den=None, tol=tol, case=case, grp="net", dist=dist, jit=True))
+        lo = int(rng.integers(-3, 0))
+        return pick([(f"RQS(knots=3, interval=({lo}, 2))", lambda: B.RationalQuadraticSpline(knots=3, interval=(lo, 2))), ("Scale(2)", lambda: B.Scale(2)),
+                     ("Affine with NonTrainable loc", lambda: eqx.tree_at(lambda a: a.loc, B.Affine(0.0, 1.5), W.NonTrainable(jnp.asarray(0.25)))),
+                     ("Chain((Affine, LeakyTanh(2)))", lambda: B.Chain((B.Affine(), B.LeakyTanh(2))))])
 
     for _ in range(2):
-        (an, act), depth, width = acts[int(rng.integers(0, 3))], int(rng.choice([0, 2, 3])), int(rng.integers(1, 5))
-        dim, cd = int(rng.integers(2, 6)), [None, 1, 3][int(rng.integers(0, 3))]
+        (an, act), depth, width, dim, cd, (tn, tr) = pick(acts), int(rng.choice([0, 2, 3])), int(rng.integers(1, 5)), int(rng.integers(2, 6)), pick([None, 1, 3]), transformer()
         ud = int(rng.choice([1, dim - 1]))
-        tn, tr = transformer()
-        add("Coupling(transformer, untransformed_dim, nn_depth, nn_width, nn_activation)", perturb(B.Coupling(key(), transformer=tr, untransformed_dim=ud, dim=dim, cond_dim=cd, nn_width=width,
-            nn_depth=depth, nn_activation=act), rng, 0.5), transformer=tn, untransformed_dim=ud, dim=dim, cond_dim=cd, nn_width=width, nn_depth=depth, nn_activation=an)
-        (an, act), depth, dim, cd = acts[int(rng.integers(0, 3))], int(rng.choice([0, 2, 3])), int(rng.integers(1, 5)), [None, 1, 2][int(rng.integers(0, 3))]
+        add("Coupling(transformer, untransformed_dim, nn_depth, nn_width, nn_activation)", lambda: perturb(B.Coupling(key(), transformer=tr(), untransformed_dim=ud, dim=dim, cond_dim=cd, nn_width=width,
+            nn_depth=depth, nn_activation=act), 0.5), dict(transformer=tn, untransformed_dim=ud, dim=dim, cond_dim=cd, nn_width=width, nn_depth=depth, nn_activation=an))
+        (an, act), depth, dim, cd, (tn, tr) = pick(acts), int(rng.choice([0, 2, 3])), int(rng.integers(1, 5)), pick([None, 1, 2]), transformer()
         width = int(rng.integers(max(dim, 2), dim + 4))
-        tn, tr = transformer()
-        add("MaskedAutoregressive(transformer, nn_depth, nn_width, nn_activation)", perturb(B.MaskedAutoregressive(key(), transformer=tr, dim=dim, cond_dim=cd, nn_width=width, nn_depth=depth,
-            nn_activation=act), rng, 0.5), transformer=tn, dim=dim, cond_dim=cd, nn_width=width, nn_depth=depth, nn_activation=an)
-        case = dict(dim=int(rng.integers(1, 4)), cond_dim=[None, 2][int(rng.integers(0, 2))], depth=int(rng.choice([0, 2, 3])), block_dim=int(rng.integers(1, 4)))
+        add("MaskedAutoregressive(transformer, nn_depth, nn_width, nn_activation)", lambda: perturb(B.MaskedAutoregressive(key(), transformer=tr(), dim=dim, cond_dim=cd, nn_width=width, nn_depth=depth,
+            nn_activation=act), 0.5), dict(transformer=tn, dim=dim, cond_dim=cd, nn_width=width, nn_depth=depth, nn_activation=an))
+        case = dict(dim=int(rng.integers(1, 4)), cond_dim=pick([None, 2]), depth=int(rng.choice([0, 2, 3])), block_dim=int(rng.integers(1, 4)))
         inv, tol = _inverter(rng, case)
         m, mk = _num(rng, 1, 3, allowed=NOJAX)
-        an, act = [("callable x + tanh(x)/2", lambda x: x + 0.5 * jnp.tanh(x)), (f"LeakyTanh({m}) [{mk}]", B.LeakyTanh(K(m, mk))), ("callable leaky_relu", lambda x: jax.nn.leaky_relu(x, 0.3))][int(rng.integers(0, 3))]
-        add("BlockAutoregressiveNetwork(depth, block_dim, activation, inverter)", perturb(B.BlockAutoregressiveNetwork(key(), dim=case["dim"], cond_dim=case["cond_dim"], depth=case["depth"],
-            block_dim=case["block_dim"], activation=act, inverter=inv), rng, 0.3), tol=200 * tol, activation=an, **case)
-    if not flows:
-        return out
-    for _ in range(1 if ctx.quick else 3):
+        an, act = pick([("callable x + tanh(x)/2", lambda: (lambda x: x + 0.5 * jnp.tanh(x))), (f"LeakyTanh({m}) [{mk}]", lambda: B.LeakyTanh(K(m, mk))), ("callable leaky_relu", lambda: (lambda x: jax.nn.leaky_relu(x, 0.3)))])
+        add("BlockAutoregressiveNetwork(depth, block_dim, activation, inverter)", lambda: perturb(B.BlockAutoregressiveNetwork(key(), dim=case["dim"], cond_dim=case["cond_dim"], depth=case["depth"],
+            block_dim=case["block_dim"], activation=act(), inverter=inv()), 0.3), dict(activation=an, **case), search=tol)
+    for _ in range(0 if not flows else 1 if ctx.quick else 3):
         base = lambda d: D.StandardNormal((d,))
-        (an, act), depth, dim, cd, nl = acts[int(rng.integers(0, 3))], int(rng.choice([0, 2])), int(rng.integers(2, 5)), [None, 2][int(rng.integers(0, 2))], int(rng.integers(1, 4))
-        tn, tr = transformer()
-        fl = perturb(F.coupling_flow(key(), base_dist=base(dim), transformer=tr, cond_dim=cd, flow_layers=nl, nn_width=3, nn_depth=depth, nn_activation=act, invert=False), rng, 0.3)
-        add("coupling_flow(invert=False, transformer, nn_depth, nn_activation)", fl.bijection, dist=fl, dim=dim, transformer=tn, cond_dim=cd, flow_layers=nl, nn_depth=depth, nn_activation=an, invert=False)
-        (an, act), depth, dim, cd, nl = acts[int(rng.integers(0, 3))], int(rng.choice([0, 2])), int(rng.integers(1, 4)), [None, 2][int(rng.integers(0, 2))], int(rng.integers(1, 4))
-        tn, tr = transformer()
-        fl = perturb(F.masked_autoregressive_flow(key(), base_dist=base(dim), transformer=tr, cond_dim=cd, flow_layers=nl, nn_width=dim + 2, nn_depth=depth, nn_activation=act, invert=False), rng, 0.3)
-        add("masked_autoregressive_flow(invert=False, transformer, nn_depth, nn_activation)", fl.bijection, dist=fl, dim=dim, transformer=tn, cond_dim=cd, flow_layers=nl, nn_depth=depth, nn_activation=an, invert=False)
-        case = dict(dim=int(rng.integers(1, 4)), cond_dim=[None, 2][int(rng.integers(0, 2))], nn_depth=int(rng.choice([0, 2])), nn_block_dim=int(rng.integers(1, 4)), flow_layers=int(rng.integers(1, 3)),
-                    invert=bool(rng.integers(0, 2)))
+        (an, act), depth, dim, cd, nl, (tn, tr) = pick(acts), int(rng.choice([0, 2])), int(rng.integers(2, 5)), pick([None, 2]), int(rng.integers(1, 4)), transformer()
+        add("coupling_flow(invert=False, transformer, nn_depth, nn_activation)", lambda: flow(lambda: F.coupling_flow(key(), base_dist=base(dim), transformer=tr(), cond_dim=cd, flow_layers=nl, nn_width=3, nn_depth=depth,
+            nn_activation=act, invert=False)), dict(dim=dim, transformer=tn, cond_dim=cd, flow_layers=nl, nn_depth=depth, nn_activation=an, invert=False))
+        (an, act), depth, dim, cd, nl, (tn, tr) = pick(acts), int(rng.choice([0, 2])), int(rng.integers(1, 4)), pick([None, 2]), int(rng.integers(1, 4)), transformer()
+        add("masked_autoregressive_flow(invert=False, transformer, nn_depth, nn_activation)", lambda: flow(lambda: F.masked_autoregressive_flow(key(), base_dist=base(dim), transformer=tr(), cond_dim=cd, flow_layers=nl,
+            nn_width=dim + 2, nn_depth=depth, nn_activation=act, invert=False)), dict(dim=dim, transformer=tn, cond_dim=cd, flow_layers=nl, nn_depth=depth, nn_activation=an, invert=False))
+        case = dict(dim=int(rng.integers(1, 4)), cond_dim=pick([None, 2]), nn_depth=int(rng.choice([0, 2])), nn_block_dim=int(rng.integers(1, 4)), flow_layers=int(rng.integers(1, 3)), invert=bool(rng.integers(0, 2)))
         inv, tol = _inverter(rng, case)
-        fl = perturb(F.block_neural_autoregressive_flow(key(), base_dist=base(case["dim"]), cond_dim=case["cond_dim"], nn_depth=case["nn_depth"], nn_block_dim=case["nn_block_dim"],
-                                                        flow_layers=case["flow_layers"], invert=case["invert"], activation=lambda x: x + 0.5 * jnp.tanh(x), inverter=inv), rng, 0.3)
-        add("block_neural_autoregressive_flow(nn_depth, activation=callable, inverter, invert)", fl.bijection, tol=1000 * tol, dist=fl, **case)
-        ns, nsk = _num(rng, 0.25, 3, allowed=("pyint", "pyfloat"))
-        dim, cd, nl = int(rng.integers(1, 4)), [None, 2][int(rng.integers(0, 2))], int(rng.integers(1, 4))
-        kw = {} if cd is None else dict(width_size=int(rng.integers(1, 4)), depth=int(rng.choice([0, 2])), activation=jnp.tanh, final_activation=[jnp.tanh, lambda v: v][int(rng.integers(0, 2))],
-                                        use_bias=bool(rng.integers(0, 2)), use_final_bias=bool(rng.integers(0, 2)))
-        fl = perturb(F.planar_flow(key(), base_dist=base(dim), cond_dim=cd, flow_layers=nl, invert=False, negative_slope=K(ns, nsk), **kw), rng, 0.4)
-        add("planar_flow(invert=False, negative_slope, **mlp_kwargs)", fl.bijection, dist=fl, dim=dim, cond_dim=cd, flow_layers=nl, negative_slope=ns, kinds=[nsk], invert=False,
-            mlp_kwargs={k: (v if isinstance(v, (int, bool)) else "fn") for k, v in kw.items()})
-        (m, mk), dim, cd, nl, kn = _num(rng, 1, 4, allowed=NOJAX), int(rng.integers(1, 4)), [None, 2][int(rng.integers(0, 2))], int(rng.integers(1, 3)), int(rng.integers(2, 6))
-        init = [jax.nn.initializers.normal(0.5), lambda k, shape: 0.3 * jr.uniform(k, shape, minval=-1.0)][int(rng.integers(0, 2))]
-        fl = perturb(F.triangular_spline_flow(key(), base_dist=base(dim), cond_dim=cd, flow_layers=nl, knots=kn, tanh_max_val=K(m, mk), invert=bool(rng.integers(0, 2)), init=init), rng, 0.3)
-        add("triangular_spline_flow(knots, tanh_max_val, init, invert)", fl.bijection, dist=fl, dim=dim, cond_dim=cd, flow_layers=nl, knots=kn, tanh_max_val=m, kinds=[mk])
+        add("block_neural_autoregressive_flow(nn_depth, activation=callable, inverter, invert)", lambda: flow(lambda: F.block_neural_autoregressive_flow(key(), base_dist=base(case["dim"]), cond_dim=case["cond_dim"],
+            nn_depth=case["nn_depth"], nn_block_dim=case["nn_block_dim"], flow_layers=case["flow_layers"], invert=case["invert"], activation=lambda x: x + 0.5 * jnp.tanh(x), inverter=inv())), case, search=tol)
+        (ns, nsk), dim, cd, nl = _num(rng, 0.25, 3, allowed=("pyint", "pyfloat")), int(rng.integers(1, 4)), pick([None, 2]), int(rng.integers(1, 4))
+        kw = {} if cd is None else dict(width_size=int(rng.integers(1, 4)), depth=int(rng.choice([0, 2])), activation=jnp.tanh, final_activation=pick([jnp.tanh, lambda v: v]), use_bias=bool(rng.integers(0, 2)),
+                                        use_final_bias=bool(rng.integers(0, 2)))
+        add("planar_flow(invert=False, negative_slope, **mlp_kwargs)", lambda: flow(lambda: F.planar_flow(key(), base_dist=base(dim), cond_dim=cd, flow_layers=nl, invert=False, negative_slope=K(ns, nsk), **kw), 0.4),
+            dict(dim=dim, cond_dim=cd, flow_layers=nl, negative_slope=ns, kinds=[nsk], invert=False, mlp_kwargs={k: (v if isinstance(v, (int, bool)) else "fn") for k, v in kw.items()}))
+        (m, mk), dim, cd, nl, kn, inv_ = _num(rng, 1, 4, allowed=NOJAX), int(rng.integers(1, 4)), pick([None, 2]), int(rng.integers(1, 3)), int(rng.integers(2, 6)), bool(rng.integers(0, 2))
+        init = pick([jax.nn.initializers.normal(0.5), lambda k, shape: 0.3 * jr.uniform(k, shape, minval=-1.0)])
+        add("triangular_spline_flow(knots, tanh_max_val, init, invert)", lambda: flow(lambda: F.triangular_spline_flow(key(), base_dist=base(dim), cond_dim=cd, flow_layers=nl, knots=kn, tanh_max_val=K(m, mk), invert=inv_,
+            init=init)), dict(dim=dim, cond_dim=cd, flow_layers=nl, knots=kn, tanh_max_val=m, invert=inv_, kinds=[mk]))
     return out
 
 
@@ -343,9 +358,10 @@ def _xc(rng, b, scale=1.3):
     return jnp.asarray(rng.normal(0, scale, b.shape)), (None if b.cond_shape is None else jnp.asarray(rng.normal(0, 1, b.cond_shape)))
 
 
-def roundtrip_errs(b, x, x2, c, tol):
+def roundtrip_errs(b, x, x2, c, tol, search=None, numeric=None):
     """C01 on the implementation: both round trips (y := transform(x2) is a point of the codomain), conditioning-scaled tolerance as in
-    c01.flows_oracle, and-log-det point == plain point."""
+    c01.flows_oracle; numerically inverted (`numeric` names the searched method): 1000 x the configured search tolerance, plus the ANALYTIC
+    map's variation over 8 tolerances per coordinate when it is the returning map; and-log-det point == plain point."""
     jnp, errs = _L()["jnp"], []
     for d in ("fwd", "inv"):
         a, bk, ald = (b.transform, b.inverse, b.transform_and_log_det) if d == "fwd" else (b.inverse, b.transform, b.inverse_and_log_det)
@@ -365,11 +381,13 @@ def roundtrip_errs(b, x, x2, c, tol):
         if not (np.all(np.isfinite(m)) and np.all(np.isfinite(p))):
             continue
         err, slack = float(np.max(np.abs(back - p))), 0.0
-        base = 50 * tol * (1.0 + float(np.max(np.abs(p))))
-        if err > base:
+        base = (50 * tol if search is None else 1000 * search) * (1.0 + float(np.max(np.abs(p))))
+        if err > base and not (search is not None and (numeric == "inverse") == (d == "fwd")):  # never measure the slack through the searched method itself
             try:
-                d_ = np.abs(_np(_call(bk, jnp.asarray(m * (1 + 4.5e-16) + 1e-300), c)) - _np(_call(bk, jnp.asarray(m * (1 - 4.5e-16) - 1e-300), c)))
-                slack = 64.0 * float(np.max(np.where(np.isfinite(d_), d_, 0.0)))
+                hs = [(m * 4.5e-16 + 1e-300, 64.0)] if search is None else [(8 * search * np.eye(m.size)[j].reshape(m.shape), 1.0) for j in range(m.size)]
+                for h, f_ in hs:
+                    d_ = np.abs(_np(_call(bk, jnp.asarray(m + h), c)) - _np(_call(bk, jnp.asarray(m - h), c)))
+                    slack += f_ * float(np.max(np.where(np.isfinite(d_), d_, 0.0)))
             except Exception:  # noqa: BLE001
                 pass
         if not err <= base + slack:
@@ -412,14 +430,15 @@ def unit_c01(ctx):
     u = ctx.unit("argcov-roundtrip", "bijections built with non-default keywords / argument type variants (leaves, combinators, conditioner layers, flow factories): both "
                                      "round trips with conditioning-scaled tolerance, and-log-det point = plain point, type variant = python-float object; non-trivial = all")
     rng = ctx.rng
-    for e in _entries(ctx, ("leaf", "comb", "net")):
+    for e in _live(ctx, u, "C01", _entries(ctx, ("leaf", "comb", "net"))):
         b = e["bij"]
-        for rep in range(2):
+        for rep in range(1 if e["dist"] is not None else 2):
             (x, c), (x2, _) = _xc(rng, b, 1.5 if rep else 0.7), _xc(rng, b)
             if "LeakyTanh" in e["name"] and rep:
                 x = x + np.sign(_np(x)) * e["case"]["max_val"]  # the linear tails
             u.count((e["name"], e["case"], rep, _np(x).tolist()), tag=e["name"].split("(")[0])
-            errs = roundtrip_errs(b, x, x2, c, e["tol"] if e["grp"] == "net" else 1e-9)
+            numeric = None if e.get("search") is None else "transform" if type(b).__name__ == "Invert" else "inverse"
+            errs = roundtrip_errs(b, x, x2, c, e["tol"] if e["grp"] == "net" else 1e-9, e.get("search"), numeric)
             if e["ref"] is not None:
                 errs += same_as_ref_errs(b, e["ref"], x, c, e["tol"])
             if errs:
@@ -433,7 +452,7 @@ def unit_c02(ctx):
     u = ctx.unit("argcov-autodiff-logdet", "same objects: log_det vs slogdet(jax.jacobian(transform)) + inverse law + scalar-ness (c02.autodiff_errors); type variant = "
                                            "python-float object; non-trivial = all")
     rng = ctx.rng
-    for e in _entries(ctx, ("leaf", "comb", "net")):
+    for e in _live(ctx, u, "C02", _entries(ctx, ("leaf", "comb", "net"))):
         b = _analytic(e)
         for rep in range(2 if e["grp"] != "net" else 1):
             x, c = _xc(rng, b, 1.2)
@@ -456,16 +475,17 @@ def unit_c07(ctx):
     u = ctx.unit("argcov-documented-function", "elementary bijections built from python ints / NumPy scalars / 0-d arrays / float32 / integer-dtype / NumPy arrays: transform "
                                                 "== the documented function (NumPy reference) == the python-float object, incl. LeakyTanh at +-max_val and spline interval ends")
     rng, jnp = ctx.rng, _L()["jnp"]
-    for e in leaf_entries(ctx):
+    for e in _live(ctx, u, "C07", leaf_entries(ctx, 5)):
         b = e["bij"]
         for rep in range(3):
             x = _np(_xc(rng, b, 2.0)[0])
-            if "LeakyTanh" in e["name"] and rep:
-                x = np.where(rng.random(x.shape) < 0.5, np.sign(x) * e["case"]["max_val"], x + np.sign(x) * e["case"]["max_val"])
+            if "LeakyTanh" in e["name"] and rep:  # the switch point, its inner neighbour, points 2^-j inside it, the linear tails
+                m = e["case"]["max_val"]
+                x = np.sign(x) * (rng.choice([m, np.nextafter(m, 0), m - 0.5, m - 0.25, m - 0.0625, m - 2.0 ** -6], x.shape) if rep == 1 else m + np.abs(x))
             if "Spline" in e["name"]:
                 iv = e["case"]["interval"]
                 lo, hi = iv if isinstance(iv, tuple) else (-iv, iv)
-                x = np.asarray([lo, hi, np.nextafter(hi, np.inf), rng.uniform(lo, hi), lo - rng.uniform(0, 2)][int(rng.integers(0, 5))]) if rep else x
+                x = np.asarray([lo, hi, max(np.nextafter(hi, np.inf), 2.3e-308) if hi == 0 else np.nextafter(hi, np.inf), rng.uniform(lo, hi), lo - rng.uniform(0, 2)][int(rng.integers(0, 5))]) if rep else x  # XLA flushes subnormals
             u.count((e["name"], e["case"], x.tolist()), tag=e["name"].split("(")[0])
             y, errs = _np(b.transform(jnp.asarray(x))), []
             if e["den"] is not None and not np.allclose(y, _np(e["den"](x)), rtol=max(e["tol"], 1e-9), atol=max(e["tol"], 1e-9)):
@@ -483,13 +503,13 @@ def unit_c08(ctx):
                                                    "indexing, Vmap with in_axes int / callable / pytree and both signs of in_axes_condition, every documented Partial idxs form, Reshape "
                                                    "cond_shape, EmbedCondition raw_cond_shape: four methods == the definition through the children (NumPy), declared shapes")
     rng, jnp = ctx.rng, _L()["jnp"]
-    for e in comb_entries(ctx):
-        b = e["bij"]
-        errs = []
+    for e in _live(ctx, u, "C08", comb_entries(ctx)):
+        b, errs = e["bij"], []
+        e["shape"] = tuple(e["shape"])
         if tuple(b.shape) != e["shape"] or b.cond_shape != e["cond"]:
             errs.append(f"declares shape {b.shape} / cond_shape {b.cond_shape}, the definition gives {e['shape']} / {e['cond']}")
-        if "expect_len" in e["case"] and e["case"]["expect_len"] != e["case"]["got_len"]:
-            errs.append(f"has {e['case']['got_len']} layers, the python slice of the layer tuple has {e['case']['expect_len']}")
+        if "expect_len" in e and e["expect_len"] != e["got_len"]:
+            errs.append(f"has {e['got_len']} layers, the python slice of the layer tuple has {e['expect_len']}")
         for rep in range(2):
             x = jnp.asarray(rng.normal(0, 1.2, e["shape"]))
             c = None if e["cond"] is None else jnp.asarray(rng.normal(0, 1, e["cond"]))
@@ -513,7 +533,7 @@ def unit_c13(ctx):
     u = ctx.unit("argcov-accept-reject", "same objects (combinators, leaves, layers): a well-formed (x, condition) is accepted and returns exactly the declared shape and a scalar "
                                          "log_det; x of another shape, a missing required condition and a condition of another shape are rejected by all four methods")
     rng, jnp = ctx.rng, _L()["jnp"]
-    for e in _entries(ctx, ("comb", "leaf", "layers")):
+    for e in _live(ctx, u, "C13", _entries(ctx, ("comb", "leaf", "layers"))):
         b = e["bij"]
         x, c = _xc(rng, b)
         shp, csh = tuple(b.shape), b.cond_shape
@@ -552,8 +572,8 @@ def unit_c14(ctx):
                                     "non-trivial = all (objects with NumPy-typed fields that are known not to trace are listed in ARGCOV.md, not run)")
     L = _L()
     rng, jnp, jax, eqx = ctx.rng, L["jnp"], L["jax"], L["eqx"]
-    for e in _entries(ctx, ("leaf", "comb", "net")):
-        if not e.get("jit", True):
+    for e in _live(ctx, u, "C14", _entries(ctx, ("leaf", "comb", "net"))):
+        if not e["jit"]:
             continue
         b = e["bij"]
         slow = e["grp"] == "net" and "lock" in e["name"]
@@ -561,6 +581,7 @@ def unit_c14(ctx):
         ms = ["transform_and_log_det", "inverse_and_log_det"]  # they subsume the plain methods
         if e["grp"] == "net":  # one direction per layer / flow and run (tracing a flow costs seconds); BNAF: the analytic side
             ms = [ms[int(type(b).__name__ == "Invert")]] if slow else [ms[int(rng.integers(0, 2))]]
+        vm = ms[int(rng.integers(0, len(ms)))]  # vmap-vs-loop on one of them
         for m in ms:
             f = lambda bb, x, cc, m=m: getattr(bb, m)(x, cc)
             try:
@@ -570,9 +591,11 @@ def unit_c14(ctx):
             u.count((e["name"], e["case"], m), tag=m)
             errs = []
             try:
-                for nm, got, exp in (("eqx.filter_jit", eqx.filter_jit(f)(b, xs[0], c), eager[0]), ("jax.vmap", jax.vmap(lambda x: f(b, x, c))(xs), jax.tree_util.tree_map(lambda *a: jnp.stack(a), *eager))):
+                runs = [("eqx.filter_jit", lambda: eqx.filter_jit(f)(b, xs[0], c), eager[0]), ("jax.vmap", lambda: jax.vmap(lambda x: f(b, x, c))(xs), jax.tree_util.tree_map(lambda *a: jnp.stack(a), *eager))]
+                for nm, run, exp in (runs if m == vm else runs[:1]):
+                    got = run()
                     for g, ex in zip(jax.tree_util.tree_leaves(got), jax.tree_util.tree_leaves(exp)):
-                        if np.shape(g) != np.shape(ex) or not np.allclose(_np(g), _np(ex), rtol=1e-8, atol=max(1e-9, 10 * e["tol"] if slow else 0), equal_nan=True):
+                        if np.shape(g) != np.shape(ex) or not np.allclose(_np(g), _np(ex), rtol=1e-8, atol=max(1e-9, 100 * e["search"] if slow else 0), equal_nan=True):
                             errs.append(f"{m} under {nm} returns {np.ravel(_np(g)).tolist()[:4]}, eagerly {np.ravel(_np(ex)).tolist()[:4]}")
             except Exception as ex:  # noqa: BLE001
                 errs.append(f"{m} raises {type(ex).__name__} under jit / vmap ({str(ex)[:90]}) but works eagerly")
@@ -591,42 +614,43 @@ def dist_entries(ctx):
     rng, out = ctx.rng, []
     fam = {"Normal": lambda l, s: st.norm(l, s), "Cauchy": lambda l, s: st.cauchy(l, s), "Gumbel": lambda l, s: st.gumbel_r(l, s), "Laplace": lambda l, s: st.laplace(l, s),
            "Logistic": lambda l, s: st.logistic(l, s), "LogNormal": lambda l, s: st.lognorm(s=s, scale=np.exp(l))}
+    _add = _adder(out, "dist")
 
-    def add(name, dist, ref, frozen, acc, tol, **case):
-        out.append(dict(name=name, dist=dist, ref=ref, logpdf=lambda x, f=frozen: np.sum(f.logpdf(x)) if np.ndim(f.logpdf(x)) else float(f.logpdf(x)), rvs=lambda f=frozen: f.rvs(random_state=rng),
-                        acc=acc, tol=tol, case=case))
+    def add(name, mk, mkref, frozen, acc, tol, **case):
+        _add(name, lambda: dict(dist=mk(), ref=mkref()), case, logpdf=lambda x, f=frozen: np.sum(f.logpdf(x)) if np.ndim(f.logpdf(x)) else float(f.logpdf(x)), rvs=lambda f=frozen: f.rvs(random_state=rng), acc=acc, tol=tol)
 
     def two(lo1, hi1, lo2, hi2):
         """(values, arguments, kinds) of a (loc-like, scale-like) pair: scalars in every type variant or arrays in every array form."""
         if rng.integers(0, 2):
             (a, ak), (b, bk) = _num(rng, lo1, hi1), _num(rng, lo2, hi2)
             return (a, b), (K(a, ak), K(b, bk)), [ak, bk]
-        ha, hb = ARR_HOW[int(rng.integers(0, 6))], ARR_HOW[int(rng.integers(0, 6))]
+        ha, hb = _pick(rng, ARR_HOW), _pick(rng, ARR_HOW)
         a, b = _arr(rng, rng.uniform(lo1, hi1, (3,)), ha), _arr(rng, rng.uniform(max(lo2, 1), hi2, [(3,), (2, 1), ()][int(rng.integers(0, 3))]), hb)
         return (_np(a), _np(b)), (a, b), [ha, hb]
 
     for name in list(fam) * (1 if ctx.quick else 3):
         (l, s_), args, kinds = two(-3, 3, 0.25, 4)
-        add(f"{name}(loc, scale)", getattr(D, name)(*args), getattr(D, name)(jnp.asarray(l), jnp.asarray(s_)), fam[name](l, s_),
-            {} if name == "LogNormal" else dict(loc=np.broadcast_arrays(l, s_)[0], scale=np.broadcast_arrays(l, s_)[1]), ktol(*kinds), loc=np.asarray(l).tolist(), scale=np.asarray(s_).tolist(), kinds=kinds)
-    for _ in range(2):
+        add(f"{name}(loc, scale)", lambda: getattr(D, name)(*args), lambda: getattr(D, name)(jnp.asarray(l), jnp.asarray(s_)), fam[name](l, s_),
+            {} if name == "LogNormal" else dict(loc=np.broadcast_arrays(l, s_)[0], scale=np.broadcast_arrays(l, s_)[1]), 1e-11, loc=np.asarray(l).tolist(), scale=np.asarray(s_).tolist(), kinds=kinds)
+    for it in range(2):
         (df, dk), ((l, s_), args, kinds) = _num(rng, 1, 9), two(-3, 3, 0.25, 4)
-        add("StudentT(df, loc, scale)", D.StudentT(K(df, dk), *args), D.StudentT(df, jnp.asarray(l), jnp.asarray(s_)), st.t(df, l, s_), dict(df=np.broadcast_arrays(df, l, s_)[0]), ktol(dk, *kinds),
+        add("StudentT(df, loc, scale)", lambda: D.StudentT(K(df, dk), *args), lambda: D.StudentT(df, jnp.asarray(l), jnp.asarray(s_)), st.t(df, l, s_), dict(df=np.broadcast_arrays(df, l, s_)[0]), 1e-11,
             df=df, loc=np.asarray(l).tolist(), scale=np.asarray(s_).tolist(), kinds=[dk, *kinds])
         (lo, w), _, kinds = two(-3, 3, 1, 4)
-        hi = lo + w
-        args = tuple(K(v, k) if np.ndim(v) == 0 else _arr(rng, v, k) for v, k in zip((lo, hi), kinds))
-        add("Uniform(minval, maxval)", D.Uniform(*args), D.Uniform(jnp.asarray(_np(args[0])), jnp.asarray(_np(args[1]))), st.uniform(_np(args[0]), _np(args[1]) - _np(args[0])),
-            dict(minval=np.broadcast_arrays(_np(args[0]), _np(args[1]))[0], maxval=np.broadcast_arrays(_np(args[0]), _np(args[1]))[1]), ktol(*kinds), minval=_np(args[0]).tolist(), maxval=_np(args[1]).tolist(), kinds=kinds)
-        (_, r), (_, rarg), kinds = two(0, 1, 0.25, 4)
-        add("Exponential(rate)", D.Exponential(rarg), D.Exponential(jnp.asarray(_np(rarg))), st.expon(scale=1 / _np(rarg)), dict(rate=_np(rarg)), ktol(kinds[1]), rate=_np(rarg).tolist(), kinds=kinds[1:])
+        uargs = tuple(K(v, k) if np.ndim(v) == 0 else _arr(rng, v, k) for v, k in zip((lo, lo + w), kinds))
+        mn, mx = _np(uargs[0]), _np(uargs[1])
+        add("Uniform(minval, maxval)", lambda: D.Uniform(*uargs), lambda: D.Uniform(jnp.asarray(mn), jnp.asarray(mx)), st.uniform(mn, mx - mn), dict(minval=np.broadcast_arrays(mn, mx)[0], maxval=np.broadcast_arrays(mn, mx)[1]),
+            1e-11, minval=mn.tolist(), maxval=mx.tolist(), kinds=kinds)
+        rv, rk = (_num(rng, 1, 4, allowed=INT_KINDS) if it == 0 else (_np(_arr(rng, rng.uniform(1, 4, 3), "npint")), _pick(rng, ("npint", "jaxi32", "np32"))))  # 1 / rate: integer-typed rates every run
+        rarg, kinds = (K(rv, rk) if it == 0 else _arr(rng, rv, rk)), [None, rk]
+        add("Exponential(rate)", lambda: D.Exponential(rarg), lambda: D.Exponential(jnp.asarray(_np(rarg))), st.expon(scale=1 / _np(rarg)), dict(rate=_np(rarg)), ktol(kinds[1]), rate=_np(rarg).tolist(), kinds=kinds[1:])
         d = int(rng.integers(2, 5))
         A = rng.normal(0, 1, (d, d))
         hc, (lv_, lk) = ["np64", "np32", "jax32", "jax64"][int(rng.integers(0, 4))], _num(rng, -3, 3)
         cov = _arr(rng, A @ A.T + d * np.eye(d), hc)
-        add("MultivariateNormal(scalar loc, covariance)", D.MultivariateNormal(K(lv_, lk), cov), D.MultivariateNormal(jnp.full(d, lv_), jnp.asarray(_np(cov))),
-            st.multivariate_normal(np.full(d, lv_), _np(cov)), dict(loc=np.full(d, lv_), covariance=_np(cov)), ktol(lk, hc), loc=lv_, covariance=_np(cov).tolist(), kinds=[lk, hc])
-        n, hw = int(rng.integers(2, 5)), ARR_HOW[int(rng.integers(0, 6))]
+        add("MultivariateNormal(scalar loc, covariance)", lambda: D.MultivariateNormal(K(lv_, lk), cov), lambda: D.MultivariateNormal(jnp.full(d, lv_), jnp.asarray(_np(cov))),
+            st.multivariate_normal(np.full(d, lv_), _np(cov)), dict(loc=np.full(d, lv_), covariance=_np(cov)), ktol(hc), loc=lv_, covariance=_np(cov).tolist(), kinds=[lk, hc])
+        n, hw = int(rng.integers(2, 5)), _pick(rng, ARR_HOW)
         w, ls, ss = _arr(rng, rng.uniform(1, 5, n), hw), rng.normal(0, 2, n), rng.uniform(0.5, 2, n)
         mix = lambda ww: D.VmapMixture(eqx.filter_vmap(D.Normal)(jnp.asarray(ls), jnp.asarray(ss)), ww)
 
@@ -636,7 +660,7 @@ def dist_entries(ctx):
 
             def rvs(self, random_state, ls=ls, ss=ss):
                 return float(random_state.normal(ls[0], ss[0]))
-        add("VmapMixture(dist, weights)", mix(w), mix(jnp.asarray(_np(w))), _Mix(), {}, ktol(hw), weights=_np(w).tolist(), locs=ls.tolist(), scales=ss.tolist(), kinds=[hw])
+        add("VmapMixture(dist, weights)", lambda: mix(w), lambda: mix(jnp.asarray(_np(w))), _Mix(), {}, ktol(hw), weights=_np(w).tolist(), locs=ls.tolist(), scales=ss.tolist(), kinds=[hw])
     return out
 
 
@@ -654,7 +678,7 @@ def unit_c05(ctx):
                                             "loc, NumPy covariance, integer mixture weights): log_prob == scipy at in-support points, support edges and outside (-inf, never NaN), "
                                             "accessors return the constructor's values, == the float64-array object")
     rng, jnp = ctx.rng, _L()["jnp"]
-    for e in dist_entries(ctx):
+    for e in _live(ctx, u, "C05", dist_entries(ctx)):
         d = e["dist"]
         pts = [np.asarray(e["rvs"](), dtype=float).reshape(d.shape) for _ in range(2)] + [np.asarray(rng.normal(0, 3, d.shape))]
         if "Uniform" in e["name"]:
@@ -712,12 +736,12 @@ def unit_c03(ctx):
     L = _L()
     rng, jnp, B, D = ctx.rng, L["jnp"], L["B"], L["D"]
     items = []
-    for e in dist_entries(ctx):
+    for e in _live(ctx, u, "C03", dist_entries(ctx)):
         (l, lk), (s_, sk), (m, mk) = _num(rng, -2, 2), _num(rng, 0.5, 3), _num(rng, 1, 3)
         loc = jnp.full(e["dist"].shape, l) if rng.integers(0, 2) else K(l, lk) + np.zeros(e["dist"].shape)
         bij = B.Chain((B.Affine(loc, K(s_, sk)), B.LeakyTanh(K(m, mk), e["dist"].shape)))
         items.append((e["name"], dict(base=e["case"], affine=[l, s_], max_val=m, kinds=[lk, sk, mk]), 1e-8, D.Transformed(e["dist"], bij)))
-    items += [(e["name"], e["case"], 1e-8 if "lock" not in e["name"] else 1e-4, e["dist"]) for e in net_entries(ctx) if e.get("dist") is not None]
+    items += [(e["name"], e["case"], 1e-8 if e["search"] is None else 1e4 * e["search"], e["dist"]) for e in _live(ctx, u, "C03", net_entries(ctx)) if e["dist"] is not None]
     for name, case, tol, d in items:
         for rep in range(2):
             key, c = _key(rng), (None if d.cond_shape is None else jnp.asarray(rng.normal(0, 1, d.cond_shape)))
@@ -733,7 +757,7 @@ def unit_c06(ctx):
                                     "same key same result")
     L = _L()
     rng, jnp = ctx.rng, L["jnp"]
-    ds = [(e["name"], e["case"], e["dist"]) for e in dist_entries(ctx)] + [(e["name"], e["case"], e["dist"]) for e in net_entries(ctx) if e.get("dist") is not None and "lock" not in e["name"]]
+    ds = [(e["name"], e["case"], e["dist"]) for e in _live(ctx, u, "C06", dist_entries(ctx) + net_entries(ctx)) if e["dist"] is not None and e.get("search") is None]
     for name, case, d in ds:
         bshape = [(3,), (2, 2), (1, 3)][int(rng.integers(0, 3))]
         cb = None if d.cond_shape is None else [(), bshape, bshape[-1:]][int(rng.integers(0, 3))]
@@ -778,10 +802,12 @@ def unit_c06(ctx):
 
 
 def unit_c11(ctx):
-    from harness.flowcases import perturb
-
     L = _L()
-    rng, jnp, jr, B, D, W, eqx = ctx.rng, L["jnp"], L["jr"], L["B"], L["D"], L["W"], L["eqx"]
+    rng, jnp, jr, B, D, W, eqx, jax = ctx.rng, L["jnp"], L["jr"], L["B"], L["D"], L["W"], L["eqx"], L["jax"]
+
+    def perturb(obj, rng, scale):  # the trainable ARRAYS (a NumPy-typed slope / max_val left in a float field is not a parameter)
+        is_p = lambda l: isinstance(l, jax.Array) and eqx.is_inexact_array(l)
+        return jax.tree_util.tree_map(lambda l: l + jnp.asarray(rng.normal(0, scale, l.shape)) if is_p(l) else l, obj, is_leaf=lambda n: isinstance(n, W.NonTrainable))
     u = ctx.unit("argcov-constraints", "objects built from argument type variants reproduce their constructor arguments (accessors, unwrapped scale / triangle / knots), keep their constraints "
                                        "after every trainable array is moved by N(0, 5) (positive scales / diagonals / df, normalised weights, knots increasing between the given interval ends, "
                                        "derivatives >= min_derivative, planar invertibility for the given slope)")
@@ -791,7 +817,7 @@ def unit_c11(ctx):
         if errs:
             _viol(ctx, u, "C11", f"C11:{name}", f"{name} built with {case}: " + "; ".join(errs[:2]), dict(entry=name, args=case))
 
-    for e in dist_entries(ctx):
+    for e in _live(ctx, u, "C11", dist_entries(ctx)):
         u.count((e["name"], e["case"]), tag=e["name"].split("(")[0])
         errs, d2 = _acc_errs(e), W.unwrap(perturb(e["dist"], rng, 5.0))
         if hasattr(d2, "bijection") and hasattr(d2.bijection, "scale") and not np.all(_np(d2.bijection.scale) > 0):
@@ -803,7 +829,7 @@ def unit_c11(ctx):
         if "Multivariate" in e["name"] and not np.all(np.diag(_np(d2.bijection.triangular)) > 0):
             errs.append("Cholesky diagonal not positive after moving the trainable arrays")
         report(e["name"], e["case"], errs)
-    for e in leaf_entries(ctx):
+    for e in _live(ctx, u, "C11", leaf_entries(ctx, 5)):
         b, cs, errs = e["bij"], e["case"], []
         u.count((e["name"], cs), tag=e["name"].split("(")[0])
         ub, up = W.unwrap(b), W.unwrap(perturb(b, rng, 5.0))
@@ -826,7 +852,7 @@ def unit_c11(ctx):
         if "Planar" in e["name"]:
             pl = up.get_planar()
             wu = float(pl.weight @ pl.get_act_scale())
-            if not (1 + wu > 0 and 1 + cs["negative_slope"] * wu > 0):
+            if float(pl.weight @ pl._act_scale) > -30 and not (1 + wu > 0 and 1 + cs["negative_slope"] * wu > 0):  # below: softplus underflows, w.u sits ON the bound (floats)
                 errs.append(f"planar layer not invertible: w.u = {wu!r} with slope {cs['negative_slope']} (needs 1 + w.u > 0 and 1 + slope * w.u > 0)")
         report(e["name"], cs, errs)
     # rejections, in every type variant of the offending number
@@ -840,23 +866,23 @@ def unit_c11(ctx):
            ("AutoregressiveBisectionInverter(max_iter<0)", lambda v: ABI(max_iter=v), (-1, -5))]
     for name, mk, vals in bad:
         for v in vals:
-            kind = kind_of(rng, v)
-            ur.count((name, v, kind), tag=name.split("(")[0])
-            try:
-                mk(K(v, kind))
-                _viol(ctx, ur, "C11", f"C11:accepts:{name}", f"{name}: the value {v} given as {kind} is accepted", dict(entry=name, value=v, kind=kind))
-            except Exception:  # noqa: BLE001
-                pass
+            for kind in [k for k in (INT_KINDS if float(v) == int(v) else ()) + FLT_KINDS if not ("Planar" in name and "jax" in k)]:
+                ur.count((name, v, kind), tag=name.split("(")[0])
+                try:
+                    mk(K(v, kind))
+                    _viol(ctx, ur, "C11", f"C11:accepts:{name}", f"{name}: the value {v} given as {kind} is accepted", dict(entry=name, value=v, kind=kind))
+                except Exception:  # noqa: BLE001
+                    pass
     for name, mk in (("VmapMixture(weights<=0)", lambda a: D.VmapMixture(comp, a)), ("TriangularAffine(diagonal<=0)", lambda a: B.TriangularAffine(0, np.diag(_np(a)) if isinstance(a, np.ndarray) else jnp.diag(a))),
                      ("Affine(array scale<=0)", lambda a: B.Affine(0, a)), ("Permute(not a permutation)", lambda a: B.Permute((a if isinstance(a, np.ndarray) else np.asarray(a)).astype(np.int32)))):
-        how = ARR_HOW[int(rng.integers(0, 6))]
-        a = _arr(rng, [[2.0, 2.0, 0.0], [3.0, 0.0, 1.0], [1.0, -1.0, 0.0]][int(rng.integers(0, 3))] if "Permute" in name else [2.0, [0.0, -1.0][int(rng.integers(0, 2))], 1.0], how)
-        ur.count((name, _np(a).tolist(), how), tag=name.split("(")[0])
-        try:
-            mk(a)
-            _viol(ctx, ur, "C11", f"C11:accepts:{name}", f"{name}: the array {_np(a).tolist()} given as {how} is accepted", dict(entry=name, value=_np(a).tolist(), kind=how))
-        except Exception:  # noqa: BLE001
-            pass
+        for how in ARR_HOW:
+            a = _arr(rng, [[2.0, 2.0, 0.0], [3.0, 0.0, 1.0], [1.0, -1.0, 0.0]][int(rng.integers(0, 3))] if "Permute" in name else [2.0, [0.0, -1.0][int(rng.integers(0, 2))], 1.0], how)
+            ur.count((name, _np(a).tolist(), how), tag=name.split("(")[0])
+            try:
+                mk(a)
+                _viol(ctx, ur, "C11", f"C11:accepts:{name}", f"{name}: the array {_np(a).tolist()} given as {how} is accepted", dict(entry=name, value=_np(a).tolist(), kind=how))
+            except Exception:  # noqa: BLE001
+                pass
 
 
 def unit_c18(ctx):
@@ -865,13 +891,12 @@ def unit_c18(ctx):
     u = ctx.unit("argcov-finite-gradients", "Transformed(StandardNormal, bijection built with non-default keywords / type variants), the families built from type variants and the flow "
                                             "factories with non-default keywords: log_prob is never NaN and wherever it is finite d/dx and d/d(every inexact leaf) are finite; inputs: "
                                             "random, x100, the LeakyTanh switch point / spline interval ends as given (integers, float32)")
-    items = [(e["name"], e["case"], e["dist"], True) for e in dist_entries(ctx)]
-    for e in _entries(ctx, ("leaf", "net")):
+    items = [(e["name"], e["case"], e["dist"], True) for e in _live(ctx, u, "C18", dist_entries(ctx))]
+    for e in _live(ctx, u, "C18", _entries(ctx, ("leaf", "net"))):
         b = e["bij"]
         if "lock" in e["name"]:  # log_prob must use the analytic side of a BNAF (the bisection cannot be differentiated)
             b = B.Invert(b) if type(b).__name__ != "Invert" else b
-        d = e.get("dist")
-        items.append((e["name"], e["case"], D.Transformed(D.StandardNormal(b.shape), b) if d is None or "lock" in e["name"] else d, e.get("jit", True)))
+        items.append((e["name"], e["case"], D.Transformed(D.StandardNormal(b.shape), b) if e["dist"] is None or "lock" in e["name"] else e["dist"], e["jit"]))
     for name, case, d, jit in items:
         params, static = eqx.partition(d, eqx.is_inexact_array, is_leaf=lambda n: isinstance(n, W.NonTrainable))
         f = jax.value_and_grad(lambda p, x, c: eqx.combine(p, static).log_prob(x, *(() if c is None else (c,))), argnums=(0, 1))
@@ -910,7 +935,7 @@ def unit_c12(ctx):
                                              "invert_on_init both ways, inside dict / list / tuple containers: unwrap == the NumPy value, is idempotent, leaves other leaves alone")
     sp, spinv = lambda v: np.logaddexp(_np(v), 0.0), lambda v: np.log(np.expm1(_np(v)))
     for rep in range(6):
-        (a, ak), (b_, bk), hw = _num(rng, 0.5, 4), _num(rng, -3, 3), ARR_HOW[int(rng.integers(0, 6))]
+        (a, ak), (b_, bk), hw = _num(rng, 0.5, 4), _num(rng, -3, 3), _pick(rng, ARR_HOW)
         arr, cond = _arr(rng, rng.uniform(1, 4, (2, 3)), hw), [True, False, np.bool_(True), np.array([True, False, True]), np.array([1, 0, 1]), jnp.asarray([False, True, True])][int(rng.integers(0, 6))]
         w2 = _arr(rng, rng.normal(0, 1, (2, 3)) + 2, ["np64", "np32", "jax32", "jax64"][int(rng.integers(0, 4))])
         tree = {"reparam-inv": W.BijectionReparam(arr, B.SoftPlus()), "reparam-raw": W.BijectionReparam(K(a, ak), B.SoftPlus(), invert_on_init=False),
@@ -937,12 +962,13 @@ def unit_c12(ctx):
     # frozen leaves under the DEFAULT optimiser of both loops with a learning_rate in every type variant; the first Adam step moves every trainable leaf by learning_rate
     uf = ctx.unit("argcov-frozen-default-optimizer", "fit_to_data / fit_to_variational_target with optimizer=None and learning_rate as python / NumPy / 0-d array / float32: NonTrainable leaves "
                                                      "and non-float leaves bit-identical, every trainable leaf moved by learning_rate (first Adam step) - and not at all by learning_rate when an optimizer is given")
-    for rep in range(4):
-        lr, lrk = [0.125, 0.25, 0.03125][int(rng.integers(0, 3))], kind_of(rng, 0.125)
+    lr_kinds = [FLT_KINDS[int(j)] for j in rng.permutation(6)]
+    for rep in range(8):
+        lr, lrk = [0.125, 0.25, 0.03125][int(rng.integers(0, 3))], lr_kinds[(rep // 2 + 3 * (rep % 2)) % 6]  # each loop sees >= 3 distinct kinds without an optimizer
         dist = D.Transformed(D.Normal(jnp.asarray(rng.normal(0, 1, 2)), K(1.5, kind_of(rng, 1.5))), W.non_trainable(B.Affine(jnp.asarray([0.5, -0.5]), 2.0)))
         dist = eqx.tree_at(lambda d: d.base_dist.bijection.loc, dist, W.NonTrainable(dist.base_dist.bijection.loc))
         x = rng.normal(0, 1, (12, 2))
-        which, given = ["data", "variational"][rep % 2], bool(rng.integers(0, 2))
+        which, given = ["data", "variational"][rep % 2], rep >= 6
         kw = dict(learning_rate=K(lr, lrk), show_progress=bool(rng.integers(0, 2)), return_best=False, **(dict(optimizer=optax.sgd(0.5)) if given else {}))
         case = dict(loop=which, learning_rate=lr, kind=lrk, optimizer="sgd(0.5)" if given else None, show_progress=kw["show_progress"], x=x.tolist())
         uf.count((rep, case), tag=which)
@@ -1144,4 +1170,5 @@ def unit_c17(ctx):
 
 
 def run_units(ctx, prop):
+    _USED.clear()
     return globals()[f"unit_{prop.lower()}"](ctx)
